@@ -616,3 +616,107 @@ func init() {
 		}
 	})
 }
+
+func init() {
+	reg := registry["C05"]
+	reg.Meta.Rules["C05.9"] = "the bytes of a heap object are the bytes of that object: a slice the global heap writer retains until the collection is serialised is made for that element (shared with C12.6; a reused encode buffer makes earlier objects carry later contents while sizes and indices stay right)"
+	reg.Rules = append(reg.Rules, func(c *Ctx, r *Result) {
+		n := c.retainedArgsFresh(r, "C05.9", "hdf5", func(n string) bool { return strings.Contains(n, "globalHeap") }, "the object's bytes, until the collection is flushed")
+		if n < 5 {
+			r.Errorf("C05.9: only %d call sites of the heap writer found", n)
+		}
+	})
+}
+
+// mayReachUnderVersion: the blocks of fn reachable from entry when every comparison of the field `<recv>.Version` with a
+// constant is folded for Version == v (other conditions may go either way).
+func mayReachUnderVersion(fn *ssa.Function, v int64) map[*ssa.BasicBlock]bool {
+	seen := map[*ssa.BasicBlock]bool{}
+	if len(fn.Blocks) == 0 {
+		return seen
+	}
+	isVersion := func(x ssa.Value) bool {
+		x = stripConv(x)
+		k, _ := fieldLoadKey(x)
+		return strings.HasSuffix(k, ".Version")
+	}
+	work := []*ssa.BasicBlock{fn.Blocks[0]}
+	for len(work) > 0 {
+		b := work[len(work)-1]
+		work = work[:len(work)-1]
+		if seen[b] {
+			continue
+		}
+		seen[b] = true
+		succs := b.Succs
+		if ifi, ok := b.Instrs[len(b.Instrs)-1].(*ssa.If); ok && len(b.Succs) == 2 {
+			if cmp, ok := ifi.Cond.(*ssa.BinOp); ok && isCmp(cmp.Op) {
+				var k int64
+				var isK, dec bool
+				if isVersion(cmp.X) {
+					k, isK = constInt(cmp.Y)
+					dec = isK
+				}
+				if dec {
+					if evalCmp(cmp.Op, v, k) {
+						succs = b.Succs[:1]
+					} else {
+						succs = b.Succs[1:]
+					}
+				}
+			}
+		}
+		work = append(work, succs...)
+	}
+	return seen
+}
+
+func init() {
+	reg := registry["C05"]
+	reg.Meta.Rules["C05.10"] = "the superblock checksum follows every rewrite of the superblock: for each superblock version the full writer stores a checksum for (its version dispatch reaches a CRC computation), the end-of-file update recomputes it too (a version that shares the layout but is left out of the guard keeps a stale checksum)"
+	reg.Rules = append(reg.Rules, func(c *Ctx, r *Result) {
+		full := c.FnOpt("core.Superblock.WriteTo")
+		upd := c.FnOpt("core.Superblock.UpdateEndOfFileAddress")
+		if full == nil || upd == nil {
+			r.Undec("C05.10", "core.Superblock#checksum-versions", "", "superblock writer / end-of-file updater not found")
+			return
+		}
+		isCRC := func(site ssa.CallInstruction) bool {
+			g := site.Common().StaticCallee()
+			return g != nil && g.Pkg != nil && g.Pkg.Pkg.Path() == "hash/crc32"
+		}
+		reachesCRC := func(fn *ssa.Function, v int64, depth int) bool {
+			var rec func(fn *ssa.Function, depth int) bool
+			rec = func(fn *ssa.Function, depth int) bool {
+				blocks := mayReachUnderVersion(fn, v)
+				for _, site := range callsIn(fn) {
+					if !blocks[site.(ssa.Instruction).Block()] {
+						continue
+					}
+					if isCRC(site) {
+						return true
+					}
+					if g := site.Common().StaticCallee(); g != nil && g.Blocks != nil && depth < 2 && strings.HasPrefix(c.Name(g), "core.Superblock.") {
+						if rec(g, depth+1) {
+							return true
+						}
+					}
+				}
+				return false
+			}
+			return rec(fn, depth)
+		}
+		n := 0
+		for _, v := range []int64{0, 1, 2, 3} {
+			w, u := reachesCRC(full, v, 0), reachesCRC(upd, v, 0)
+			if !w && !u {
+				continue
+			}
+			n++
+			r.Check(!w || u, "C05.10", "core.Superblock.UpdateEndOfFileAddress#checksum-recomputed-for-version-"+itoa(int(v)), c.Pos(upd.Pos()), "superblock version "+itoa(int(v))+": the full writer stores a checksum; the end-of-file update must recompute it")
+		}
+		if n == 0 {
+			r.Undec("C05.10", "core.Superblock#checksum-versions", c.Pos(full.Pos()), "no version reaches a CRC computation in the superblock writer")
+		}
+	})
+}
